@@ -42,6 +42,9 @@ type NodeSpec struct {
 	// Lookups: component names this node looks up through App.GetComponentByName from inside its first
 	// initialization callback (service-locator style); errors of the lookups are ignored by the node.
 	Lookups []string `json:"lookups,omitempty"`
+	// LookupsAlways: the lookups are repeated in every initialization callback, not only the first one
+	// (a stateless service-locator component)
+	LookupsAlways bool `json:"lookups_always,omitempty"`
 }
 
 func (n *NodeSpec) DisplayName() string {
@@ -154,12 +157,12 @@ func Build(sc *Scenario, opt Options) *Run {
 		k := n.Core()
 		k.Idx, k.Name, k.Qual, k.KindV, k.Ord, k.Log, k.Hook = i, ns.Name, ns.Qual, ns.Kind, ns.Ord, r.Log, opt.Hook
 		if len(ns.Lookups) > 0 {
-			lookups, outer, done := ns.Lookups, opt.Hook, false
+			lookups, outer, done, always := ns.Lookups, opt.Hook, false, ns.LookupsAlways
 			k.Hook = func(kind string, who Node) {
 				if outer != nil {
 					outer(kind, who)
 				}
-				if (kind == "init" || kind == "aps") && !done {
+				if (kind == "init" || kind == "aps") && (!done || always) {
 					done = true
 					for _, name := range lookups {
 						r.Log.Add("lookup", name)
